@@ -376,7 +376,7 @@ def record_c06(binary, tier, seed):
     rng = random.Random(seed)
     steps = [{"op": "swap", "kind": "script"}]
     nedges = nrun = 0
-    fills = 1 if tier == "quick" else 3
+    fills = 1 if tier == "quick" else 10
     for w in (12, 15, 18, 21, 24):
         scripts, ne = reader_scripts(w, rng, 1)
         nedges += ne
@@ -494,7 +494,7 @@ def osproc_trace(binary, n, l, seed, d):
 
 def record_c07(binary, tier, seed):
     combos = [(n, l) for l in range(10) for n in (12, 15, 18, 21, 24)]
-    reps = 1 if tier == "quick" else 10
+    reps = 1 if tier == "quick" else 30
     d = vlib.scratch("verif-os-")
     lines, nproc, observed = [], 0, 0
     for rep in range(reps):
